@@ -179,7 +179,7 @@ type gpPkg struct {
 
 func genPlanPart(r *hlib.Run, sb *hlib.StdBuild) {
 	rd := r.Rand.Fork()
-	n := 12
+	n := 10
 	if r.Thorough {
 		n = 120
 	}
@@ -448,7 +448,7 @@ const (
 
 func releasePart(r *hlib.Run, sb *hlib.StdBuild) {
 	rd := r.Rand.Fork()
-	n := 30
+	n := 24
 	if r.Thorough {
 		n = 300
 	}
